@@ -58,7 +58,9 @@ let change_of_sx (x : t) : cchange =
       | _ -> raise (Parse_error "mk")) (field "mk" fs) in
   let mdots = List.map dpos_of_sx (field "mdots" fs) in
   let pdots = List.map dpos_of_sx (field "pdots" fs) in
-  let assoc = match connect_dots mdots pdots with
+  let minus = npat_of_sx (field "minus" fs) in
+  let plus = npat_of_sx (field "plus" fs) in
+  let assoc = match change_assoc minus plus mdots pdots with
     | Some m -> m
     | None -> raise (Compile_error "dots") in
   { ch_mk = mk;
@@ -66,8 +68,8 @@ let change_of_sx (x : t) : cchange =
     ch_plus_pkg = (match field "ppkg" fs with [p] -> opt_n p | _ -> None);
     ch_minus_imports = List.map pimp_of_sx (field "mimports" fs);
     ch_plus_imports = List.map pimp_of_sx (field "pimports" fs);
-    ch_minus = npat_of_sx (field "minus" fs);
-    ch_plus = npat_of_sx (field "plus" fs);
+    ch_minus = minus;
+    ch_plus = plus;
     ch_assoc = assoc }
 
 let sx_imp (i : imp) : t =
